@@ -176,6 +176,29 @@ def build_corpus():
     add('date', datetime.date(1999, 12, 31))
     add('time', datetime.time(23, 59, 58))
     add('timedelta', datetime.timedelta(days=-2, seconds=3, microseconds=4))
+    # equal-but-distinguishable values, and one value under different settings: a cache keyed by the value alone
+    # (or by equality) makes the output depend on what was printed before
+    add('zero-pos', 0.0)
+    add('zero-neg', -0.0)
+    add('zero-neg-nested', [-0.0, {'k': 0.0}])
+    add('one-int', 1)
+    add('one-bool', True)
+    add('one-float', 1.0)
+    add('ones', [1, True, 1.0, (1,), (True,), (1.0,)])
+    add('str-vs-bytes', ['a', b'a'])
+    _td = datetime.timedelta(days=400, seconds=3725, microseconds=1500)
+    add('td', _td)
+    add('td-narrow', _td, {'indent': 2, 'width': 10})
+    add('td-neg', -_td)
+    add('td-at-cut', [_td], {'depth': 1})
+    add('td-wide', [_td], {'width': 200})
+    _dt = datetime.datetime(2021, 3, 4, 5, 6, 7)
+    add('dt-narrow', _dt, {'indent': 1, 'width': 12})
+    add('dt-at-cut', [[_dt]], {'depth': 1})
+    _od = collections.OrderedDict([('k', [1, 2, 3])])
+    add('od-narrow', _od, {'indent': 2, 'width': 8})
+    add('od-at-cut', [_od], {'depth': 1})
+    add('od-truncated', collections.OrderedDict([(i, i) for i in range(6)]), {'max_seq_len': 2})
     add('namedtuple', Point(1, [2, 3]))
     add('struct-seq', time.gmtime(0))
     add('struct-seq-narrow', [time.gmtime(86400)], {'width': 30})
